@@ -231,9 +231,11 @@ class ConstantQubitNoiseModel(NoiseModel):
         self._prepend = prepend
 
     def _value_equality_values_(self) -> Any:
-        return self.qubit_noise_gate
+        return self.qubit_noise_gate, self._prepend
 
     def __repr__(self) -> str:
+        if self._prepend:
+            return f'cirq.ConstantQubitNoiseModel({self.qubit_noise_gate!r}, prepend=True)'
         return f'cirq.ConstantQubitNoiseModel({self.qubit_noise_gate!r})'
 
     def noisy_moment(self, moment: cirq.Moment, system_qubits: Sequence[cirq.Qid]) -> cirq.OP_TREE:
@@ -249,7 +251,10 @@ class ConstantQubitNoiseModel(NoiseModel):
         return output[::-1] if self._prepend else output
 
     def _json_dict_(self) -> dict[str, Any]:
-        return protocols.obj_to_dict_helper(self, ['qubit_noise_gate'])
+        d = protocols.obj_to_dict_helper(self, ['qubit_noise_gate'])
+        if self._prepend:
+            d['prepend'] = True
+        return d
 
     def _has_unitary_(self) -> bool:
         return protocols.has_unitary(self.qubit_noise_gate)
